@@ -4,7 +4,7 @@ import ast
 import struct
 
 from ..report import rule
-from .. import norm, cfg as cfgmod, guards
+from .. import pm, norm, cfg as cfgmod, guards
 from ..typestate import TypeState
 from ..traces import Tracer, fmt
 from ..model import AnalysisError
@@ -96,43 +96,57 @@ def c20_r2(ctx):
     wh = hw.methods["_write_hashes"]
     rk = hr.methods["ranges_for_key"]
     ctx.saw(rk)
-    wb = [norm.canon(n.slice) for n in ast.walk(add.node) if isinstance(n, ast.Subscript) and norm.canon(n.value) == "self.buckets"]
-    rb = [norm.canon(n.slice) for n in ast.walk(rk.node) if isinstance(n, ast.Subscript) and norm.canon(n.value) == "self.tables"]
-    ctx.ob("HashWriter.add <-> HashReader.ranges_for_key", wb == ["(255 & h)"] and rb == ["(255 & keyhash)"], "bucket = hash & 255 on both sides",
+    wb = [norm.deep_canon(n.slice, add.node) for n in ast.walk(add.node) if isinstance(n, ast.Subscript) and norm.canon(n.value) == "self.buckets"]
+    rb = [norm.deep_canon(n.slice, rk.node) for n in ast.walk(rk.node) if isinstance(n, ast.Subscript) and norm.canon(n.value) == "self.tables"]
+    ctx.ob("HashWriter.add <-> HashReader.ranges_for_key", wb == ["(255 & self.hashfn(key))"] and rb == ["(255 & self.hashfn(key))"], "bucket = hash & 255 on both sides",
            detail="%s / %s" % (wb, rb), loc=add.loc)
-    ws = [norm.canon(st.value) for st in ast.walk(wh.node) if isinstance(st, ast.Assign) and norm.canon(st.targets[0]) == "slot"]
-    rs = [norm.canon(st.value) for st in ast.walk(rk.node) if isinstance(st, ast.Assign) and norm.canon(st.targets[0]) == "slotpos"]
-    ok = "((hashval >> 8) % numslots)" in ws and "((1 + slot) % numslots)" in ws and \
-        any("((keyhash >> 8) % numslots)" in s_ for s_ in rs)
-    ctx.ob("HashWriter._write_hashes <-> HashReader.ranges_for_key", ok, "initial slot = (hash >> 8) % numslots; probing wraps modulo numslots",
-           detail="writer %s ; reader %s" % (ws, rs), loc=wh.loc)
-    wrap = [norm.canon(n.test) for n in ast.walk(rk.node) if isinstance(n, ast.If) and "tablestart" in norm.canon(n.test)]
-    ctx.ob(rk, any("numslots" in w_ for w_ in wrap), "the reader's probe wraps to the start of the table", detail=str(wrap))
+    WH = pm.Alpha(wh)
+    whs = pm.stmts_of(wh.node)
+    # roles: numslots = 2 * len(entries); (hashval, position) are the bucket's entries; the table is probed while the slot is taken
+    w_ok = WH.has(whs, "numslots = 2 * len(entries)") and WH.has(whs, "slot = (hashval >> 8) % numslots") and \
+        WH.has(whs, "slot = (slot + 1) % numslots") and WH.has(whs, "hashtable[slot] = (hashval, position)") and \
+        any(isinstance(lp, ast.For) and WH.eq(lp.target, "(hashval, position)") and WH.eq(lp.iter, "entries") for lp in whs)
+    RK = pm.Alpha(rk)
+    rks = pm.stmts_of(rk.node)
+    r_ok = RK.has(rks, "keyhash = self.hashfn(key)") and RK.has(rks, "tablestart, numslots = self.tables[keyhash & 255]") and \
+        RK.has(rks, "ptrsize = _pointer.size") and RK.has(rks, "slotpos = tablestart + (((keyhash >> 8) % numslots) * ptrsize)")
+    ctx.ob("HashWriter._write_hashes <-> HashReader.ranges_for_key", w_ok and r_ok, "initial slot = (hash >> 8) % numslots; probing wraps modulo numslots",
+           detail="writer forms recognised: %s ; reader forms recognised: %s" % (w_ok, r_ok), loc=wh.loc)
+    wrap = [st for st in rks if isinstance(st, ast.If) and RK.eq(st.test, "slotpos == tablestart + (numslots * ptrsize)")]
+    ctx.ob(rk, len(wrap) == 1 and RK.has(wrap[0].body, "slotpos = tablestart") and RK.has(rks, "slotpos += ptrsize"),
+           "the reader's probe wraps to the start of the table")
     cl = hw.methods["close"]
-    order = [norm.canon(c) for c in norm.calls_in(cl.node) if norm.call_name(c) in ("_write_hashes", "_write_directory", "_write_extras", "write_int")]
-    ctx.ob(cl, order == ["self._write_hashes()", "self._write_directory()", "self._write_extras()", "dbfile.write_int((dbfile.tell() - expos))"],
-           "close(): hashes, directory, extras, then the extras length", detail=str(order))
-    defs = {}
-    for st in ast.walk(ri.node):
-        if isinstance(st, ast.Assign) and isinstance(st.targets[0], ast.Name):
-            defs[st.targets[0].id] = norm.canon(st.value)
-    ok = defs.get("exptr") == "((length + startoffset) - _INT_SIZE)" and defs.get("exlen") == "dbfile.get_int(exptr)" and \
-        defs.get("expos") == "(exptr - exlen)"
-    seeks = [norm.canon(c.args[0]) for c in norm.calls_in(ri.node) if norm.call_name(c) == "seek"]
-    ctx.ob(ri, ok and "(expos - _directory_size)" in seeks and "expos" in seeks,
-           "reader finds the extras length at the end, the extras before it and the 256-entry directory before them", detail="%s seeks %s" % (defs, seeks))
+    CL = pm.Alpha(cl)
+    order = [c for c in norm.calls_in(cl.node) if norm.call_name(c) in ("_write_hashes", "_write_directory", "_write_extras", "write_int")]
+    ok = len(order) == 4 and [norm.canon(c) for c in order[:3]] == ["self._write_hashes()", "self._write_directory()", "self._write_extras()"] and \
+        CL.eq(order[3], "self.dbfile.write_int(self.dbfile.tell() - expos)", al=True) and CL.has(pm.stmts_of(cl.node), "expos = self.dbfile.tell()", al=True)
+    # expos is taken after the directory and before the extras
+    if ok:
+        exst = CL.find(pm.stmts_of(cl.node), "expos = self.dbfile.tell()", al=True)
+        ok = order[1].lineno < exst.lineno < order[2].lineno
+    ctx.ob(cl, ok, "close(): hashes, directory, extras, then the extras length", detail=str([CL.text(c) for c in order]))
+    RI = pm.Alpha(ri)
+    ris = pm.stmts_of(ri.node)
+    ok = RI.has(ris, "exptr = (length + startoffset) - _INT_SIZE") and RI.has(ris, "exlen = dbfile.get_int(exptr)") and \
+        RI.has(ris, "expos = exptr - exlen")
+    seeks = [c.args[0] for c in norm.calls_in(ri.node) if norm.call_name(c) == "seek" and c.args]
+    ctx.ob(ri, ok and any(RI.eq(x, "expos - _directory_size") for x in seeks) and any(RI.eq(x, "expos") for x in seeks),
+           "reader finds the extras length at the end, the extras before it and the 256-entry directory before them",
+           detail="seeks %s" % [RI.text(x) for x in seeks])
     mod = hw.module
     dsz = prog.fold_str(mod, mod.assigns.get("_directory_size")) if "_directory_size" in mod.assigns else None
     de = _struct_of(prog, mod, "_dir_entry")
     ctx.ob(hw, de is not None and (dsz == 256 * struct.calcsize(de) or norm.canon(mod.assigns.get("_directory_size")) in ("(256 * _dir_entry.size)", "(_dir_entry.size * 256)")),
            "the directory is 256 entries of _dir_entry", detail="_directory_size = %s" % norm.canon(mod.assigns.get("_directory_size")), loc=hw.loc)
     # record layout
-    wrec = [norm.canon(c) for c in norm.calls_in(add.node) if norm.call_name(c) == "write"]
-    ctx.ob(add, wrec == ["dbfile.write(_lengths.pack(len(key), len(value)))", "dbfile.write(key)", "dbfile.write(value)"],
+    wrec = [norm.canon(c, norm.aliases(add.node)) for c in norm.calls_in(add.node) if norm.call_name(c) == "write"]
+    ctx.ob(add, wrec == ["self.dbfile.write(_lengths.pack(len(key), len(value)))", "self.dbfile.write(key)", "self.dbfile.write(value)"],
            "record = lengths(key, value), key bytes, value bytes", detail=str(wrec))
     rg = hr.methods["_ranges"]
-    t = norm.stmt_text(rg.node)
-    ctx.ob(rg, "keypos = pos + lenssize" in t and "datapos = keypos + keylen" in t and "pos = datapos + datalen" in t,
+    RG = pm.Alpha(rg)
+    rgs = pm.stmts_of(rg.node)
+    ctx.ob(rg, RG.has(rgs, "lenssize = _lengths.size") and RG.has(rgs, "keylen, datalen = unpacklens(dbfile.get(pos, lenssize))") and
+           RG.has(rgs, "keypos = pos + lenssize") and RG.has(rgs, "datapos = keypos + keylen") and RG.has(rgs, "pos = datapos + datalen"),
            "reader steps through records as lengths, key, value")
     # ordered index: lower-bound search
     oh = prog.cls(FT + "OrderedHashReader")
@@ -141,14 +155,25 @@ def c20_r2(ctx):
         raise AnalysisError("OrderedHashReader.closest_key_pos vanished")
     ctx.saw(ck)
     fa = guards.Facts(ck)
-    moves = {}
+    CK = pm.Alpha(ck)
+    cks = pm.stmts_of(ck.node)
+    roles = CK.has(cks, "lo = 0") and CK.has(cks, "hi = self.indexlen") and CK.has(cks, "mid = (lo + hi) // 2") and \
+        any(isinstance(st, ast.While) and CK.eq(st.test, "lo < hi") for st in cks)
+    midkeys = [st for st in cks if isinstance(st, ast.Assign) and isinstance(st.targets[0], ast.Name) and
+               any(isinstance(x, ast.Name) and x.id == CK.name("mid") for x in ast.walk(st.value)) and st.targets[0].id != CK.name("mid")]
+    if len(midkeys) == 1:
+        CK.eq(midkeys[0].targets[0], "midkey")
+    lo_ok = hi_ok = False
     for n in fa.g.nodes:
         a = n.ast
-        if n.kind == "stmt" and isinstance(a, ast.Assign) and norm.canon(a.targets[0]) in ("lo", "hi"):
-            moves.setdefault(norm.canon(a.targets[0]), []).append((norm.canon(a.value), sorted(t_ for (p, t_) in (fa.at(n) or []) if "midkey" in t_ and p in ("T", "F"))))
-    lo_ok = any(v == "(1 + mid)" and any("(midkey < key)" in x for x in f_) for v, f_ in moves.get("lo", []))
-    hi_ok = any(v == "mid" for v, f_ in moves.get("hi", []))
-    ctx.ob(ck, lo_ok and hi_ok, "binary search: midkey < key -> lo = mid + 1, else hi = mid (first key >= the probe)", detail=str(moves))
+        if n.kind == "stmt" and isinstance(a, ast.Assign):
+            facts = fa.at(n) or frozenset()
+            if CK.eq(a, "lo = mid + 1") and CK.fact(facts, "T", "midkey < key"):
+                lo_ok = True
+            if CK.eq(a, "hi = mid") and CK.fact(facts, "F", "midkey < key"):
+                hi_ok = True
+    ctx.ob(ck, roles and lo_ok and hi_ok, "binary search: midkey < key -> lo = mid + 1, else hi = mid (first key >= the probe)",
+           detail="roles %s lo %s hi %s" % (roles, lo_ok, hi_ok))
     ow = prog.cls(FT + "OrderedHashWriter")
     oa = ow.methods["add"]
     ctx.ob(oa, any(isinstance(n, ast.If) and "lastkey" in norm.canon(n.test) and any(isinstance(x, ast.Raise) for x in n.body) for n in ast.walk(oa.node)),
@@ -168,8 +193,17 @@ def c20_r4(ctx):
     for wname in ("filedb.compound.CompoundStorage.assemble", "filedb.compound.CompoundWriter.save_as_compound"):
         f = prog.func(wname)
         ctx.saw(f)
-        seq = [norm.canon(c) for c in norm.calls_in(f.node) if norm.call_name(c) in ("write_long", "write_int", "write_dir")]
-        ctx.ob(f, seq[:2] == ["dbfile.write_long(0)", "dbfile.write_int(0)"] and seq[-1].startswith("CompoundStorage.write_dir(dbfile, basepos, directory"),
+        FA = pm.Alpha(f)
+        calls_ = [c for c in norm.calls_in(f.node) if norm.call_name(c) in ("write_long", "write_int", "write_dir")]
+        seq = [FA.text(c) for c in calls_]
+        fs = pm.stmts_of(f.node)
+        ok = len(calls_) >= 3 and FA.has(fs, "basepos = dbfile.tell()") and FA.has(fs, "directory = {}") and \
+            FA.eq(calls_[0], "dbfile.write_long(0)") and FA.eq(calls_[1], "dbfile.write_int(0)") and \
+            (FA.eq(calls_[-1], "CompoundStorage.write_dir(dbfile, basepos, directory, options)") or FA.eq(calls_[-1], "CompoundStorage.write_dir(dbfile, basepos, directory)"))
+        if ok:
+            bp = FA.find(fs, "basepos = dbfile.tell()")
+            ok = bp.lineno < calls_[0].lineno
+        ctx.ob(f, ok,
                "reserves (long, int) at basepos, copies members, then write_dir(dbfile, basepos, directory...)", detail=str(seq))
         keys = set()
         for n in ast.walk(f.node):
@@ -178,9 +212,16 @@ def c20_r4(ctx):
         ctx.ob(f, {"offset", "length"} <= keys, "directory entries carry 'offset' and 'length'", detail=str(sorted(keys)))
     wd = prog.method("filedb.compound.CompoundStorage", "write_dir")
     ctx.saw(wd)
-    seq = [norm.canon(c) for c in norm.calls_in(wd.node) if norm.call_name(c) in ("write_pickle", "seek", "write_long", "write_int", "close", "flush")]
-    ctx.ob(wd, seq == ["dbfile.write_pickle(directory)", "dbfile.write_pickle(options)", "dbfile.flush()", "dbfile.seek(basepos)",
-                       "dbfile.write_long(dirpos)", "dbfile.write_int((endpos - dirpos))", "dbfile.close()"],
+    WD = pm.Alpha(wd)
+    calls_ = [c for c in norm.calls_in(wd.node) if norm.call_name(c) in ("write_pickle", "seek", "write_long", "write_int", "close", "flush")]
+    seq = [WD.text(c) for c in calls_]
+    want = ["dbfile.write_pickle(directory)", "dbfile.write_pickle(options)", "dbfile.flush()", "dbfile.seek(basepos)",
+            "dbfile.write_long(dirpos)", "dbfile.write_int(endpos - dirpos)", "dbfile.close()"]
+    wds = pm.stmts_of(wd.node)
+    dp = WD.find(wds, "dirpos = dbfile.tell()")
+    ep = WD.find(wds, "endpos = dbfile.tell()")
+    ctx.ob(wd, dp is not None and ep is not None and len(calls_) == len(want) and all(WD.eq(c, w_) for c, w_ in zip(calls_, want)) and
+           dp.lineno < calls_[0].lineno and calls_[1].lineno < ep.lineno < calls_[3].lineno,
            "write_dir: directory pickle, options pickle, back-patch (dirpos, length) at basepos, close", detail=str(seq))
     ini = cs.methods["__init__"]
     ctx.saw(ini)
@@ -189,7 +230,8 @@ def c20_r4(ctx):
     ctx.ob(ini, rseq[:5] == ["read_long", "read_int", "seek", "read_pickle", "read_pickle"],
            "reader: long dirpos, int length, seek(dirpos), directory pickle, options pickle", detail=str(rseq))
     rg = cs.methods["range"]
-    ctx.ob(rg, "fileinfo['offset'], fileinfo['length']" in norm.stmt_text(rg.node), "open_file uses the 'offset' and 'length' of the member")
+    rets = [norm.deep_canon(r.value, rg.node) for r in returns_of(rg) if r.value is not None]
+    ctx.ob(rg, rets == ["(self._dir[name]['offset'], self._dir[name]['length'])"], "open_file uses the 'offset' and 'length' of the member", detail=str(rets))
     # SubFile: seek before every read of the shared parent
     sub = prog.cls("filedb.compound.SubFile")
     for m in ("read", "readline"):
@@ -330,6 +372,11 @@ def c20_r7(ctx):
     dd = nm.functions.get("delta_decode")
     if de is None or dd is None:
         raise AnalysisError("util.numlists delta_encode/delta_decode vanished")
-    te, td = " ".join(ast.unparse(de.node).split()), " ".join(ast.unparse(dd.node).split())
-    ctx.ob("util.numlists.delta_encode <-> delta_decode", ("yield (n - base)" in te or "yield n - base" in te) and "base = n" in te and "base += n" in td and "yield base" in td,
+    DE, DD = pm.Alpha(de), pm.Alpha(dd)
+    des, dds = pm.stmts_of(de.node), pm.stmts_of(dd.node)
+    e_ok = DE.has(des, "base = 0") and any(isinstance(lp, ast.For) and DE.eq(lp.iter, "nums") and DE.eq(lp.target, "n") and len(lp.body) == 2 and
+                                         DE.eq(lp.body[0], "yield n - base") and DE.eq(lp.body[1], "base = n") for lp in des)
+    d_ok = DD.has(dds, "base = 0") and any(isinstance(lp, ast.For) and DD.eq(lp.iter, "nums") and DD.eq(lp.target, "n") and len(lp.body) == 2 and
+                                         DD.eq(lp.body[0], "base += n") and DD.eq(lp.body[1], "yield base") for lp in dds)
+    ctx.ob("util.numlists.delta_encode <-> delta_decode", e_ok and d_ok,
            "encode yields n - base then base = n; decode adds to base and yields it", loc=de.loc)
